@@ -78,6 +78,7 @@ def fields(manifest):
     decls = [d.strip() for d in region.split(";") if d.strip()]
     out = []
     names = {}
+    defaults = {}
     for d in decls:
         d = " ".join(d.split())
         m = re.fullmatch(r"static const size_t MEMORY_SIZE_WORDS = hex::MAX_MEMORY_SIZE_WORDS", d)
@@ -99,21 +100,24 @@ def fields(manifest):
         if d == "std::map<std::string, unsigned> debugInfoMap":
             names["debugInfoMap"] = "dropped"
             continue
-        m = re.fullmatch(r"([\w:]+) (\w+)", d)
+        m = re.fullmatch(r"([\w:]+) (\w+)(?: = ([\w~ ]+)|\{([\w~ ]*)\})?", d)
         if m and m.group(1) in SCALAR_TYPES:
             out.append("%s %s;" % (SCALAR_TYPES[m.group(1)], m.group(2)))
             names[m.group(2)] = SCALAR_TYPES[m.group(1)]
+            if m.group(3) is not None or m.group(4) is not None:
+                defaults[m.group(2)] = (m.group(3) if m.group(3) is not None else (m.group(4).strip() or "0")).replace("~0U", "~0u")
             continue
         raise ExtractionError("hexsim::Processor: member declaration not understood: %r" % d)
     for need in ("pc", "areg", "breg", "oreg", "instr", "memory", "running", "tracing", "exitCode", "lastPC", "cycles", "maxCycles", "instrEnum", "truncateInputs"):
         if need not in names:
             raise ExtractionError("hexsim::Processor: member %s not found" % need)
-    manifest.append({"unit": "Processor fields", "fields": names})
+    manifest.append({"unit": "Processor fields", "fields": names, "default_member_initialisers": defaults})
+    names["__defaults__"] = defaults
     return "\n".join(out) + "\n", names
 
 
-def ctor_inits(manifest):
-    """the constructor's mem-initialiser list as C assignments; members not mentioned are NOT assigned."""
+def ctor_items(manifest):
+    """[(member, initialiser text)] of the constructor's mem-initialiser list"""
     src = Source("hexsim.hpp", manifest)
     t = src.span(r"Processor\(std::istream &in, std::ostream &out, size_t maxCycles=0\) :\s*(.*?\))\s*\{\}", "Processor::Processor initialiser list", 1)
     t = strip_comments(t)
@@ -130,6 +134,12 @@ def ctor_inits(manifest):
         rp = match_close(t, lp, m.group(2), ")" if m.group(2) == "(" else "}")
         items.append((name, t[lp + 1:rp].strip()))
         i = rp + 1
+    return items
+
+
+def ctor_inits(manifest):
+    """the constructor's mem-initialiser list as C assignments; members not mentioned are NOT assigned."""
+    items = ctor_items(manifest)
     asg = []
     inited = []
     for n, v in items:
@@ -212,8 +222,17 @@ def run_parts(manifest):
     if not mt:
         raise ExtractionError("run(): expected a single `return <member>;` after the loop, found %r" % tail)
     head = strip_comments(run[1:m.start()]).strip()
-    if head:
-        raise ExtractionError("run(): unexpected statements before the loop: %r" % head)
+    # scalar locals of run() declared before the loop are loop-carried state of the interpreter that the architecture does
+    # not have: they become globals of the unit, set by run_prologue(); harnesses that start at an arbitrary iteration
+    # must treat them as arbitrary (run_locals_havoc) -- see simunit.hidden_state()
+    run_locals = []
+    for d in [x.strip() for x in head.split(";") if x.strip()]:
+        d = " ".join(d.split())
+        md = re.fullmatch(r"(?:const )?(bool|int|unsigned|uint64_t|uint32_t|uint8_t|size_t) (\w+) = ([^;{}]+)", d)
+        if not md:
+            raise ExtractionError("run(): unexpected statement before the loop: %r" % d)
+        init = rewrite(md.group(3), [(r"~0U\b", "~0u", 0)], "run() local initialiser", manifest)
+        run_locals.append((md.group(1), md.group(2), init))
     body = rewrite(body, ENUM_RULES + [
         (r"throw std::runtime_error\([^;]*\);", "{ VERIF_THROW(0); return; }", 2),
     ], "Processor::run loop body", manifest)
@@ -221,9 +240,14 @@ def run_parts(manifest):
     body = rewrite_memory(body, c)
     if c.get("RD", 0) < 5 or c.get("WR", 0) < 2:
         raise ExtractionError("run() body: expected >=5 memory reads and >=2 stores, found %s" % c)
-    manifest.append({"unit": "Processor::run loop body", "memory_accesses": c, "loop_condition": cond, "returns": mt.group(1)})
+    manifest.append({"unit": "Processor::run loop body", "memory_accesses": c, "loop_condition": cond, "returns": mt.group(1),
+                     "loop_carried_locals": [n for _, n, _ in run_locals]})
     leftover_check(body, "step")
-    return cond, "static void step(void) " + body + "\n", mt.group(1)
+    pre = "".join("static %s %s; /* local of run(), loop-carried */\n" % (ty, n) for ty, n, _ in run_locals)
+    pre += "static void run_prologue(void) {%s }\n" % "".join(" %s = %s;" % (n, i) for _, n, i in run_locals)
+    pre += "#ifdef HEX_CBMC\n" + "".join("%s nondet_local_%s(void);\n" % (ty, n) for ty, n, _ in run_locals)
+    pre += "static void run_locals_havoc(void) {%s }\n#endif\n" % "".join(" %s = nondet_local_%s();" % (n, n) for _, n, _ in run_locals)
+    return cond, pre + "static void step(void) " + body + "\n", mt.group(1)
 
 
 def _split_top(s, sep):
